@@ -47,6 +47,14 @@ func init() {
 		Assume:   []string{"the writer is flushed after every packet so that block boundaries are known; a crash is a cut of the bytes written so far", "libpcap is only asked to read files with one link type and snap length", "timestamps are never the zero time.Time (the pcap writer substitutes the wall clock for it)"}}
 }
 
+func init() {
+	props["C15"] = PropDef{Level: "exploration", QuickS: 45, ThoroughS: 600,
+		Units: []Unit{{Name: "capfile-hostile", Pkg: "./props/capfile", Sim: "c15", Share: 1}},
+		Rule: "one evaluation = one seeded input (a structurally valid pcap / pcapng / snoop file built field by field by the harness, little or big endian, with every header, block, option and record field a named mutation target; then 0-2 field corruptions from a boundary value set, or a random tail, or a truncation; optionally gzip-wrapped, bit-flipped or cut) read through the fault-free stream, two differently chunked streams and a stream that fails at a seeded offset (every offset for inputs up to 512 bytes in the thorough tier), with the copying or zero-copy call; oracles: no panic, no spin at EOF, allocation per call within 1 MiB + 4 x (bytes present + declared snap length), len(data)==CaptureLength<=Length, results independent of chunking, results before an injected error are a prefix of the fault-free results and the error surfaces; non-trivial = at least one corruption or stream fault fired; distinct = distinct event-log fingerprints among non-trivial runs",
+		RealStub: "real: pcapgo.Reader, NgReader, SnoopReader, bufio, compress/gzip; stub: the byte stream (sim/disk.Stream)",
+		Assume: []string{"a corrupted declared snap length is capped at 1 MiB by the harness, because a declared snap length licenses an allocation of that size", "allocation is measured with runtime/metrics /gc/heap/allocs:bytes around each call in a single-goroutine child", "after a non-EOF error the harness keeps calling (up to 3 consecutive errors, 64 calls)"}}
+}
+
 var probeNames = map[string][]string{
 	"c09":     {"stream_crosses_wrap", "wrap_inside_delivery", "flush_forced_skip", "limit_forced_skip", "syn_overtaken_by_data", "gap_announced", "delivery_without_start", "kept_bytes_presented", "multi_page_with_saved"},
 	"c11r":    {"flush_forced_skip", "limit_forced_skip"},
